@@ -92,6 +92,18 @@ func (ps *pathState) strEqTerm(x, y value) *Term {
 			}
 			continue
 		}
+		fa, isfa := a[i].(ffElem)
+		fb, isfb := b[i].(ffElem)
+		if isfa || isfb {
+			// float text pseudo-bytes: equal texts iff same format and same value
+			// (a float text against an ordinary byte counts as different; such a
+			// candidate is replayed natively before it is reported)
+			if isfa && isfb && fa.f == fb.f && fa.prec == fb.prec && fa.x.sort == fb.x.sort {
+				cs = append(cs, ps.ts.Eq(fa.x, fb.x))
+				continue
+			}
+			return ps.ts.False
+		}
 		cs = append(cs, ps.ts.Eq(ps.termOf(a[i], 0), ps.termOf(b[i], 0)))
 	}
 	return ps.ts.And(cs...)
